@@ -37,7 +37,7 @@ def make_plan(rng, tier, index):
 
 
 def normalise(plan):
-    return plan
+    return trainplan.sanitize(plan)
 
 
 def execute(plan):
